@@ -151,6 +151,49 @@ CHECKS = {
         note="Exploration cannot prove absence of exceptions. The edge table was read off the code and calibrated on a census; DeclSlack and the "
              "nesting slack are calibrated constants. Wall-clock timeouts of the transformations are outside the model.",
     ),
+    "C01": dict(
+        category="exploration",
+        technique="reference type checker as a TLA+ stack machine over the program's AST walk (HTyping, declarative subtyping with capture "
+                  "approximation, boxing, conditionals as branch pairs); real generated programs serialised structurally and walked by TLC, one "
+                  "state per AST node; every typed position judged",
+        text="192 (quick) / 1 200 (thorough) programs over 4 languages, default and sampled switch settings; clauses InitAssignable, "
+             "ArgAssignable (constructor, super, call, reference call, default, array), ResultAssignable, AssignAssignable, "
+             "TypeArgWithinBound (every type occurrence), AbstractImplemented, OverrideCompatible, NoFinalSuper.",
+        design_ref="DESIGN.md §5 C01, Appendix A",
+        note="Exploration over seeds. The reference semantics is independent of type_utils.py and was cross-examined against the "
+             "implementation in C06; it cannot be calibrated against kotlinc/groovyc/scalac (not installed).",
+    ),
+    "C05": dict(
+        category="exploration",
+        technique="the scope half of the HTyping stack machine in TLA+ (lexical scope stack, class scopes with inherited members, type "
+                  "variables in scope, fresh identifiers, hard keywords of the four languages); generated programs walked by TLC",
+        text="Same runs as C01 with separate clauses: Resolved (variable, field, function, reference callee, class, assignment target), "
+             "ArityAdmitted (defaults, named arguments, varargs), AssignTargetNonFinal, InstantiatedConcrete, TypeVarsInScope, FreshInScope, "
+             "NotReserved.",
+        design_ref="DESIGN.md §5 C05",
+        note="Exploration over seeds. Reserved-word sets are the languages' hard keywords, written in the spec (not read from src/resources).",
+    ),
+    "C03": dict(
+        category="exploration",
+        technique="erasure as a step on abstract programs (HMutation.EraseFrameBad: only annotations may disappear) validated by TLC on "
+                  "before/after walks of the real TypeErasure; the erased program re-checked by the HTyping stack machine in inference mode",
+        text="Frame: every field of every AST node identical except removed variable types, return types and inferable flags, for the first and a "
+             "second application of the erasure. Inferability: the erased program has no typing/scoping violation it did not have before, with "
+             "omitted variable types inferred from initializers and omitted constructor type arguments solved from expected type / arguments.",
+        design_ref="DESIGN.md §5 C03, Appendix B",
+        note="Exploration over seeds (80 / 800 programs). One open finding (NarrowedByErasure) keyed by a predicate computed in the walk.",
+    ),
+    "C04": dict(
+        category="exploration",
+        technique="overwriting as a step on abstract programs (HMutation.OverwriteFrameBad: exactly one site, only its declared type / one type "
+                  "argument), unrelatedness judged by HTypes on the program's class table, rejection judged by the HTyping walk; all by TLC on "
+                  "recorded before/after pairs of the real TypeOverwriting",
+        text="On generated and on erased programs, two random choices each: one site differs; replaced and replacing types unrelated in the "
+             "declarative relation; message names both types and the node; the overwritten program is rejected by the reference checker; when "
+             "nothing is injected the program and its translation are unchanged.",
+        design_ref="DESIGN.md §5 C04",
+        note="Exploration over seeds. 'A correct type checker must reject' is judged by the spec's reference semantics.",
+    ),
 }
 
 NOT_YET = "check not built yet (work in progress in this session; see DESIGN.md §10 for the order of work)"
